@@ -77,6 +77,7 @@ async def run_scenario(sc: dict, loop) -> dict:
     await world.declare(*[f"q{q}" for q in qs])
     for q in qs:
         world.mb.queues[f"q{q}"].processing = RecHeld(log)
+    world.mb.round_trip = sc.get("round_trip", 0.0)
     durs = {j["id"]: j for j in sc["jobs"]}
     running = {"n": 0, "max": 0}
 
